@@ -43,7 +43,8 @@ func (t *XMPPTransport) Connect() (string, error) {
 
 	// A new TCP connection is never secure, whatever the previous one was
 	t.isSecure = false
-	t.closeChan = make(chan stanza.StreamClosePacket)
+	// One slot: the stream close of the server may arrive before, or without, a call to Close
+	t.closeChan = make(chan stanza.StreamClosePacket, 1)
 	t.readWriter = newStreamLogger(t.conn, t.logFile)
 	t.decoder = xml.NewDecoder(bufio.NewReaderSize(t.readWriter, maxPacketSize))
 	t.decoder.CharsetReader = t.Config.CharsetReader
@@ -159,5 +160,9 @@ func (t *XMPPTransport) LogTraffic(logFile io.Writer) {
 }
 
 func (t *XMPPTransport) ReceivedStreamClose() {
-	t.closeChan <- stanza.StreamClosePacket{}
+	// Never block the receive loop: nobody may be waiting in Close (server initiated close)
+	select {
+	case t.closeChan <- stanza.StreamClosePacket{}:
+	default:
+	}
 }
